@@ -111,3 +111,23 @@ Definition pure_good (co : pcase * pobs) : bool :=
 Definition e2e_good (co : ecase * eobs) : bool :=
   let '(own, rivals, (_, _, _, unstated, _, _)) := fst co in
   forallb (fun r => let r := mk_row r in fgood (if r_conf_neg r then unstated else r_conf r)) (own ++ rivals).
+
+(* ---------- the textual comparisons of `eligible` are chronological only on stored-form
+   timestamps: every time string of a case is `YYYY-MM-DDTHH:MM:SS.mmmZ` (or empty = no bound) ---------- *)
+Definition is_digit (c : ascii) : bool :=
+  let n := nat_of_ascii c in Nat.leb 48 n && Nat.leb n 57.
+Fixpoint match_pat (pat s : list ascii) : bool :=
+  match pat, s with
+  | [], [] => true
+  | p :: pr, c :: sr => (if Ascii.eqb p "d" then is_digit c else Ascii.eqb p c) && match_pat pr sr
+  | _, _ => false
+  end.
+Definition canonical_ts (s : string) : bool :=
+  match_pat (list_ascii_of_string "dddd-dd-ddTdd:dd:dd.dddZ") (list_ascii_of_string s).
+
+Definition e2e_times_canonical (co : ecase * eobs) : bool :=
+  let '(own, rivals, (_, _, _, _, at_, _)) := fst co in
+  canonical_ts at_ &&
+  forallb (fun r => let r := mk_row r in
+             (String.eqb (r_valid_from r) "" || canonical_ts (r_valid_from r)) &&
+             (String.eqb (r_valid_until r) "" || canonical_ts (r_valid_until r))) (own ++ rivals).
